@@ -4,7 +4,7 @@
    harness/lib.py — keep the format  "| <n> (* <name> *) =>". *)
 From Dlms Require Import Base CrcModel CrcSpec FieldsModel FieldsSpec AddrModel AddrSpec WrapperModel WrapperSpec
   TimeModel TimeSpec AxdrModel AxdrSpec AxdrBridge FrameModel FrameSpec HdlcConnModel HdlcScript HdlcLinkSpec
-  ParsersModel AssocModel AssocSpec TransportModel ClientModel Aes Gcm SecurityModel XdlmsModel XdlmsSpec.
+  ParsersModel AssocModel AssocSpec TransportModel ClientModel Aes Gcm SecurityModel XdlmsModel XdlmsSpec AcseModel AcseSpec.
 
 Definition v_bools (l : list bool) : V := VList (map VBool l).
 Definition as_bools (v : V) : list bool := map as_b (as_list v).
@@ -206,6 +206,28 @@ Definition as_apdu (v : V) : apdu :=
   else if k =? 20 then GeneralGlobalCipher (as_bytes (arg 1 v)) (as_sc (arg 2 v)) (as_n (arg 3 v)) (as_bytes (arg 4 v))
   else NoneValue.
 
+(* ---- ACSE values ---- *)
+Definition v_optb (o : option bytes) : V := v_opt VBytes o.
+Definition as_optapdu (v : V) : option apdu := if is_none v then None else Some (as_apdu v).
+Definition as_aarq (v : V) : aarq :=
+  {| q_user := as_apdu (arg 0 v); q_title := as_optbytes (arg 1 v); q_cert := as_optbytes (arg 2 v); q_auth := as_optn (arg 3 v);
+     q_ciphered := as_b (arg 4 v); q_value := as_optbytes (arg 5 v); q_calling_ae_inv := as_optbytes (arg 6 v);
+     q_called_ap_title := as_optbytes (arg 7 v); q_called_ae_qual := as_optbytes (arg 8 v); q_called_ap_inv := as_optbytes (arg 9 v);
+     q_called_ae_inv := as_optbytes (arg 10 v); q_calling_ap_inv := as_optbytes (arg 11 v); q_impl := as_optbytes (arg 12 v) |}.
+Definition v_aarq (a : aarq) : V :=
+  VList [v_apdu (q_user a); v_optb (q_title a); v_optb (q_cert a); v_optn (q_auth a); VBool (q_ciphered a); v_optb (q_value a);
+         v_optb (q_calling_ae_inv a); v_optb (q_called_ap_title a); v_optb (q_called_ae_qual a); v_optb (q_called_ap_inv a);
+         v_optb (q_called_ae_inv a); v_optb (q_calling_ap_inv a); v_optb (q_impl a)].
+Definition as_aare (v : V) : aare :=
+  {| e_result := as_n (arg 0 v); e_diag := (as_b (arg 0 (arg 1 v)), as_n (arg 1 (arg 1 v))); e_ciphered := as_b (arg 2 v);
+     e_auth := as_optn (arg 3 v); e_title := as_optbytes (arg 4 v); e_cert := as_optbytes (arg 5 v); e_value := as_optbytes (arg 6 v);
+     e_user := as_optapdu (arg 7 v); e_impl := as_optbytes (arg 8 v); e_ap_inv := as_optbytes (arg 9 v); e_ae_inv := as_optbytes (arg 10 v) |}.
+Definition v_aare (a : aare) : V :=
+  VList [VN (e_result a); VList [VBool (fst (e_diag a)); VN (snd (e_diag a))]; VBool (e_ciphered a); v_optn (e_auth a); v_optb (e_title a);
+         v_optb (e_cert a); v_optb (e_value a); v_opt v_apdu (e_user a); v_optb (e_impl a); v_optb (e_ap_inv a); v_optb (e_ae_inv a)].
+Definition as_release (v : V) : release := {| r_reason := as_optn (arg 0 v); r_user := as_optapdu (arg 1 v) |}.
+Definition v_release (a : release) : V := VList [v_optn (r_reason a); v_opt v_apdu (r_user a)].
+
 Definition run (op : N) (a : V) : V :=
   match op with
   (* ---- crc.py model ---- *)
@@ -371,5 +393,18 @@ Definition run (op : N) (a : V) : V :=
   | 170 (* apdu_to_bytes *) => v_res VBytes (apdu_to_bytes (as_apdu a))
   | 171 (* xdlms_from_bytes *) => v_res v_apdu (xdlms_from_bytes (as_bytes a))
   | 172 (* spec_apdu *) => let x := as_apdu a in if wf_apdu x then VBytes (std_apdu x) else VNone
+  (* ---- ACSE APDUs (C02) ---- *)
+  | 180 (* aarq_to_bytes *) => v_res VBytes (aarq_to_bytes (as_aarq a))
+  | 181 (* aarq_from_bytes *) => v_res v_aarq (aarq_from_bytes (as_bytes a))
+  | 182 (* aare_to_bytes *) => v_res VBytes (aare_to_bytes (as_aare a))
+  | 183 (* aare_from_bytes *) => v_res v_aare (aare_from_bytes (as_bytes a))
+  | 184 (* rlrq_to_bytes *) => v_res VBytes (rlrq_to_bytes (as_release a))
+  | 185 (* rlrq_from_bytes *) => v_res v_release (rlrq_from_bytes (as_bytes a))
+  | 186 (* rlre_to_bytes *) => v_res VBytes (rlre_to_bytes (as_release a))
+  | 187 (* rlre_from_bytes *) => v_res v_release (rlre_from_bytes (as_bytes a))
+  | 190 (* spec_aarq *) => let x := as_aarq a in if wf_aarq x then VBytes (std_aarq x) else VNone
+  | 191 (* spec_aare *) => let x := as_aare a in if wf_aare x then VBytes (std_aare x) else VNone
+  | 192 (* spec_rlrq *) => let x := as_release a in if wf_release GenEnums.enum_ReleaseRequestReason x then VBytes (std_release 98 x) else VNone
+  | 193 (* spec_rlre *) => let x := as_release a in if wf_release GenEnums.enum_ReleaseResponseReason x then VBytes (std_release 99 x) else VNone
   | _ => bad_args
   end.
